@@ -191,6 +191,15 @@
 			i32.add
 			local.get $size
 			call $heap_alignment8
+			;; a zero-size request still needs a block of its own:
+			;; the list head has size 0 and must never be handed out
+			local.tee $size
+			i32.eqz
+			if (result i32)
+				i32.const 8
+			else
+				local.get $size
+			end
 			return
 		end
 
